@@ -903,6 +903,11 @@ class FnView:
                 return r
         if proj and callee in ("std::vec::Vec::new", "std::vec::Vec::with_capacity"):
             return set()     # an empty vector has no elements: element reads see what was pushed (see _origins_local)
+        if callee == "std::array::map" and len(t["args"]) == 2:
+            # `arr.map(T::from)`: element k of the result is the conversion of element k of the array
+            f = self._origins_op(t["args"][1], (), False, visiting, at)
+            if f and all(o.kind == "fnitem" and re.search(r"(as std::convert::(From|Into)<.*>>|^std::convert::(From|Into))::(from|into)$", norm_name(str(o.a))) for o in f):
+                return self._origins_op(t["args"][0], proj, taint, visiting, at)
         if _MAP_OR_RE.search(callee) and len(t["args"]) == 3 and getattr(self, "model", None) is not None:
             # opt.map_or(default, |x| e) / map_or_else(|| d, |x| e): the default, or what the closure computes from the payload
             r = self._closure_result_origins(t["args"][2], b, proj, taint, at)
